@@ -431,6 +431,35 @@ Section TR.
     apply ref_of_index. exact nr_r.
   Qed.
 
+  Lemma ents_ok anc d : forall ch ents,
+    Forall2 (ent_rel t (si_refs si)) ch ents -> Forall dent_ok ents ->
+    (forall e, In e ch -> name_okb (fst e) = true) ->
+    Forall (fun e => 1 <= snd e /\ snd e < d) ch -> Forall (fun x => d <= x) anc ->
+    Forall (EntOk anc) ents.
+  Proof.
+    intros ch ents R. induction R as [|e x ch0 ents0 Hed R' IH]; intros DO PO CB Hanc; [constructor|].
+    pose proof (Forall_inv DO) as D1. pose proof (Forall_inv_tail DO) as DO'.
+    pose proof (Forall_inv CB) as [C1 C2]. pose proof (Forall_inv_tail CB) as CB'.
+    constructor; [|apply IH; [exact DO'|intros y Hy; apply PO; right; exact Hy|exact CB'|exact Hanc]].
+    destruct Hed as (E1 & E2 & E3 & tgt & G & Ty).
+    pose proof (PO e (or_introl eq_refl)) as Pn.
+    unfold name_okb in Pn. rewrite !andb_true_iff in Pn. destruct Pn as [_ Pz].
+    split; [exact D1|]. split; [rewrite E1; exact Pz|].
+    destruct (node_run_at _ _ G) as (jc & nc & tnc & ic & bc & rc & NRc & Hc & _ & Hr).
+    exists jc, nc, tnc, ic, bc, rc. split; [exact NRc|]. split; [congruence|]. split; [congruence|].
+    rewrite <- Hc. apply mem_N_ge. eapply Forall_impl; [|exact Hanc]. cbv beta. intros y Hy. lia.
+  Qed.
+
+  Lemma ch_nodes : forall ch ents L,
+    Forall2 (ent_rel t (si_refs si)) ch ents -> Forall2 ent_node ents L -> Forall2 ch_node ch L.
+  Proof.
+    intros ch ents L R. revert L. induction R as [|e d ch0 ents0 Hed _ IH]; intros L F2; inversion F2; subst; constructor.
+    - destruct Hed as (E1 & E2 & _).
+      match goal with H : ent_node d _ |- _ => destruct H as (X1 & jj & nn & tt & ii & bb & rr & NRx & Hn & Hx) end.
+      split; [congruence|]. exists jj, nn, tt, ii, bb, rr. split; [exact NRx|]. split; [congruence|exact Hx].
+    - apply IH. assumption.
+  Qed.
+
   Lemma dir_goal : forall k, DirGoal k.
   Proof.
     induction k as [k IHk] using lt_wf_ind.
@@ -448,27 +477,13 @@ Section TR.
     assert (CB : Forall (fun e => 1 <= snd e /\ snd e < N.of_nat j + 1) ch).
     { apply Forall_forall. intros e He. specialize (PO e He). rewrite !andb_true_iff, N.leb_le, N.ltb_lt in PO. lia. }
     assert (EO : Forall (EntOk anc) ([] ++ concat (map snd hs))).
-    { cbn [app]. rewrite HA. clear - R DO PO CB Hanc compress_ok limit_ok Hrep Hfit FIN.
-      induction R as [|e d ch0 ents0 Hed R' IH]; [constructor|].
-      pose proof (Forall_inv DO) as D1. pose proof (Forall_inv_tail DO) as DO'.
-      pose proof (Forall_inv CB) as [C1 C2]. pose proof (Forall_inv_tail CB) as CB'.
-      constructor; [|apply IH; [exact DO'|intros x Hx; apply PO; right; exact Hx|exact CB']].
-      destruct Hed as (E1 & E2 & E3 & tgt & G & Ty).
-      specialize (PO e (or_introl eq_refl)). rewrite !andb_true_iff in PO. destruct PO as [[Pn _] _].
-      unfold name_okb in Pn. rewrite !andb_true_iff in Pn. destruct Pn as [_ Pz].
-      split; [exact D1|]. split; [rewrite E1; exact Pz|].
-      destruct (node_run_at _ _ G) as (jc & nc & tnc & ic & bc & rc & NRc & Hc & _ & Hr).
-      exists jc, nc, tnc, ic, bc, rc. split; [exact NRc|]. split; [congruence|]. split; [congruence|].
-      rewrite <- Hc. apply mem_N_ge. eapply Forall_impl; [|exact Hanc]. cbv beta. intros x Hx. lia. }
+    { cbn [app]. rewrite HA. apply (ents_ok anc (N.of_nat j + 1) ch ents R DO); try assumption.
+      intros e He. specialize (PO e He). rewrite !andb_true_iff in PO. tauto. }
     destruct (fill_entries_ok anc post (length ents) [] hs first0 it dr efuel) as (dr1 & L & FE & C1 & F2); try assumption.
     { cbn [app]. rewrite HA. reflexivity. }
     { rewrite <- Hlen. eapply entries_lt; eassumption. }
     rewrite FE. cbn [bind]. cbn [app] in F2. rewrite HA in F2.
-    assert (F3 : Forall2 ch_node ch L).
-    { clear - R F2. revert L F2. induction R as [|e d ch0 ents0 Hed _ IH]; intros L F2; inversion F2; subst; constructor.
-      - destruct Hed as (E1 & E2 & _). match goal with H : ent_node d _ |- _ => destruct H as (X1 & jj & nn & tt & ii & bb & rr & NRx & Hn & Hx) end.
-        split; [congruence|]. exists jj, nn, tt, ii, bb, rr. split; [exact NRx|]. split; [congruence|exact Hx].
-      - apply IH. assumption. }
+    pose proof (ch_nodes ch ents L R F2) as F3.
     apply (children_ok k (fun k' Hk' => IHk k' Hk') (N.of_nat j + 1) anc ltac:(lia) Hanc ch L dr1 F3 CB C1).
   Qed.
 
